@@ -829,3 +829,17 @@ Proof.
   - f_equal. rewrite <- (map_id es) at 2. apply map_ext_in. intros e He.
     rewrite Forall_forall in IH. now apply IH.
 Qed.
+
+(** * TL1 -> TL2 -> TL1 *)
+Theorem tl1_tl2_tl1 san s x : wf2 s x = true ->
+  forall v t bare ps b1 fuel, enc1 san s t bare ps v = Some b1 -> (vdepth v <= fuel)%nat ->
+    dec1 fuel san s t bare ps b1 = Some (Ok (v, [])) /\
+    forall b2, enc2 s x t false v = Some b2 -> norm2 s x t false v = v ->
+      dec2 fuel s x t b2 = Some (Ok (v, [])).
+Proof.
+  intros Hwf v t bare ps b1 fuel H1 Hd. split.
+  - pose proof (enc1_dec1 san s (wf2_wf1 s x Hwf) v fuel Hd t bare ps b1 [] H1) as R.
+    now rewrite app_nil_r in R.
+  - intros b2 H2 Hn. pose proof (enc2_dec2 s x Hwf v t b2 fuel [] H2 Hd) as R.
+    now rewrite app_nil_r, Hn in R.
+Qed.
